@@ -55,6 +55,7 @@ def _c05():
         ("R-REPLY1", "each iteration of the frame loop pushes exactly one reply; the loop is not left mid-batch", rules_conn.rule_reply1),
         ("R-PARSEERR", "a protocol error from parse_frame is queued/sent as an error reply on every path (no silent break)", rules_conn.rule_parseerr),
         ("R-READ-FEED", "once Connection::read has fed the parser in a call it returns `data available`: no error / `nothing read` exit is reachable after a feed (path-sensitive), so received commands are always parsed", rules_conn.rule_read_feed),
+        ("R-SOCK-WRITE", "every write to the non-blocking client socket is a partial write of write_buffer[write_offset..] whose returned count is added to write_offset (no all-or-nothing write_all / write! that loses the progress of a partial write)", rules_conn.rule_sock_write),
         ("R-PARSE-DRAIN", "the loop draining the parser ends only when parse_frame reports an incomplete buffer or an error (no frame budget that strands complete commands until the next read)", rules_conn.rule_parse_drain),
         ("R-CODEC-SHORTTEST", "a non-panicking content test on an open-ended sub-slice of the input whose negative outcome leads to a protocol error is dominated by a length test covering the bytes examined (no error decided from bytes that have not arrived)", rules_conn.rule_codec_shorttest),
         ("R-PARSEERR-CLOSE", "the consumer of queued protocol errors pushes an error reply and requests the connection to be closed", rules_conn.rule_parseerr_close),
@@ -104,6 +105,7 @@ def _c11():
         ("R-AOF-RAND", "no command with a random outcome is appended verbatim", rules_aof.rule_rand),
         ("R-AOF-FLUSH", "every path from the serialisation of the frame to a normal return of append_command passes a flush of the buffered writer", rules_aof.rule_flush_all_paths),
         ("R-AOF-FRAME", "append_command serialises exactly one Array frame of the command parts and flushes under every fsync policy", rules_aof.rule_frame),
+        ("R-AOF-REOPEN", "a function that puts another file at the log path (a rewrite that can succeed) re-opens the writer before returning: the file appended to is the file at the log path", rules_aof.rule_reopen),
     ]
 
 
@@ -131,6 +133,7 @@ def _c13():
         ("R-BLK-REGPAIR", "blocked_on_key / blocked_keys are updated together; registration and Blocked state are set together", rules_block.rule_regpair),
         ("R-DISC-SIB", "both connection-removal sites perform the same clean-up set (blocking, pub/sub, monitor)", rules_block.rule_disc_sib),
         ("R-BLK-TIMEOUTS", "the timeout pass scans every registry on every call; it may skip the scan only under a cached deadline all of whose writes are derived from the blocked clients' deadlines (no reset that forgets later deadlines)", rules_block.rule_timeout_scan),
+        ("R-BLK-FOREVER", "behind BLPOP/BRPOP every Duration built from the parsed timeout is reachable only through a non-zero test of that number (every spelling of zero means no deadline; path-sensitive)", rules_block.rule_forever),
         ("R-BLK-EOF", "blocked connections are not excluded from reading (disconnect detection)", rules_block.rule_eof),
         ("R-BLK-UNREGALL", "unregistering a client removes every entry it has in a key's queue (retain, or a removal inside a loop that searches again)", rules_block.rule_unreg_all),
         ("R-BLK-FIFO", "a key's waiter queue is appended at the back, served from the front and otherwise edited only by order-preserving operations", rules_block.rule_fifo),
@@ -146,6 +149,7 @@ def _c14():
         ("R-PS-CLOSE", "every connection observed Closing is queued for removal", rules_pubsub.rule_close),
         ("R-DISC-SIB", "both connection-removal sites drop pub/sub, blocking and monitor registrations", rules_block.rule_disc_sib),
         ("R-PS-LABEL", "every pmessage frame is built inside the receiver loop from the current receiver's own pattern, not cached across receivers", rules_pubsub.rule_label),
+        ("R-PS-BYTES", "channel / pattern / payload bytes reach the subscription manager and the message formatters unaltered (no lossy or UTF-8-only decoding, case mapping, cutting on the interprocedural value flow)", rules_pubsub.rule_bytes),
         ("R-PS-RECORD", "a connection's subscription record is dropped only under `channels.is_empty() && patterns.is_empty()` (or after sweeping both global maps)", rules_pubsub.rule_record),
     ]
 
@@ -175,6 +179,7 @@ def _c16():
         ("R-CG-CURSOR", "a delivery advances the group cursor on both sides of the NOACK test", rules_stream.rule_cg_cursor),
         ("R-CG-START", "the start position given at creation initialises the delivery cursor", rules_stream.rule_cg_start),
         ("R-ATOMIC", "group administration refused for a bad argument has no effect (no refusal after a mutation)", rules_cmd.rule_atomic("C16")),
+        ("R-CG-ATOMIC", "refused group administration has no effect on the group objects: no Err result after a state mutation in storage::consumer_groups, no error reply after a state-mutating call in the handlers", rules_stream.rule_cg_atomic),
         ("R-CG-CURSOR-READ", "the delivery cursor is consulted only where entries are delivered or the cursor is administered: XACK / XCLAIM / XPENDING are decided by the pending list alone", rules_stream.rule_cg_cursor_readers),
         ("R-CG-IDLE", "idle times (claim thresholds, XPENDING idle column) are computed from last_delivery, never from delivered_at", rules_stream.rule_cg_idle),
         ("R-SORTED-SEARCH", "a sequence that some function looks up by binary search is kept sorted by every function that grows it (order test of the element, insert at the searched position, or a sort on every path)", rules_order.rule_sorted_search(("storage::stream::", "storage::consumer_groups::"))),
@@ -201,6 +206,7 @@ def _c06():
         ("R-HANG", "the command thread never sleeps for a client-controlled time; scripts run under an execution bound", rules_panic.make_taint_rule({"client", "wire"}, ("sleep",), "client-controlled sleeps")),
         ("R-LOOPBOUND", "no loop on the command thread runs for a client-controlled number of iterations without an upper bound (a dominating comparison, min/clamp with what is present)", rules_panic.make_taint_rule({"client", "wire"}, ("loop",), "client-controlled loop bounds")),
         ("R-HANG-LUA", "before the chunk is run, eval installs an instruction hook whose callback can return Err, decided by a clock or counter", rules_panic.rule_hang),
+        ("R-LUA-REPLY-BUDGET", "every loop of the Lua -> RESP conversion that reads the Lua state has an exit decided by an element budget shared by the whole conversion (depth alone does not bound a graph-shaped value; the conversion runs outside the script time limit)", rules_lua.rule_reply_budget),
         ("R-LOCK-L1", "no lock is re-acquired (directly or through a call) while a guard of the same lock is held", rules_panic.rule_lock_l1),
         ("R-ERRPROP", "a handler error never kills the connection (C05)", rules_conn.rule_errprop),
         ("R-RUN-FATAL", "the only errors that can propagate through `?` up to Server::run (whose Err ends the process) originate at the listening socket, never in storage, handlers, parsing or per-connection I/O (interprocedural error-origin analysis)", rules_panic.rule_run_fatal),
@@ -248,6 +254,7 @@ def _c03():
         ("R-INT-CANON", "HINCRBY reads the stored field through the canonical integer parser (std parse over the whole i64 range + round trip)", rules_int.make_int_canon("C03")),
         ("R-SETALG-MISSING", "in the operand loops of SUNION/SDIFF/SINTER a later key that does not exist is the empty set: union and difference go on with the next key, the intersection ends empty", rules_coll.rule_setalg_missing),
         ("R-REMOVE-ITER", "a loop that removes at an ascending index does not advance the index in the iteration that removed (adjacent matches would be skipped: LREM)", rules_coll.rule_remove_iter),
+        ("R-IDX-SINGLE", "behind LINDEX / LSET the index of the element access has no clamping / wrapping step on its value flow unless a comparison of the index against the length dominates the access (out-of-range is refused, not moved to the nearest element)", rules_coll.rule_idx_single),
     ]
 
 
@@ -305,13 +312,13 @@ CLAIMS = {
             "not_decided": "that each reply value and resulting dataset equal the Redis reference (index arithmetic, NX/XX truth tables, glob semantics)."},
     "C02": {"decided": "Lazy expiry: every shard-map lookup in an engine method flows into is_expired(); the sweeper deletes only under a re-check of the stored deadline in the same lock scope; the deadline is written only by dedicated setters called from dedicated TTL functions; inserts store a fresh StoredValue or (RENAME) the removed one; expiry index updated with the deadline. TTL survives in-place modifications (fresh StoredValue only where the key has no live entry); only the sweeper reads the expiry index; dump deadlines use a clock read in the same invocation; per-record loader state never leaks into the next record. RENAME moves the entry as a whole (never writes `.value` of an entry already in the map).",
             "not_decided": "real-time exactness of Instant comparisons, TTL reply rounding, sweeper scheduling."},
-    "C03": {"decided": "Every list/set/hash command has a dispatcher arm with the right effect class and the storage primitive its semantics need (LPUSH front insertion, RPOP back removal, ...); failure atomicity (no refusal after a mutation) in handlers and engine methods; every shrinking engine method has an emptiness test followed by removal of the key; HINCRBY reads stored integers canonically; no loop removes at an ascending index and advances it in the same iteration (adjacent matches skipped). A missing later key is the empty set in SUNION/SDIFF (skipped) and SINTER (empty result).",
+    "C03": {"decided": "Every list/set/hash command has a dispatcher arm with the right effect class and the storage primitive its semantics need (LPUSH front insertion, RPOP back removal, ...); failure atomicity (no refusal after a mutation) in handlers and engine methods; every shrinking engine method has an emptiness test followed by removal of the key; HINCRBY reads stored integers canonically; no loop removes at an ascending index and advances it in the same iteration (adjacent matches skipped). A missing later key is the empty set in SUNION/SDIFF (skipped) and SINTER (empty result). Behind LINDEX / LSET the index of the element access carries no clamping or wrapping step on its value flow unless a comparison of the index against the length dominates the access.",
             "not_decided": "order/index arithmetic, LREM direction and count, set algebra results, random-pick distribution."},
     "C04": {"decided": "No score reaches SkipList::insert without a dominating NaN refusal of that value; refused multi-member ZADD adds nothing; key index, node links and length stay in step (pairing, re-score unlinks before linking, who-writes length); removing the last member removes the key; dispatcher arms with the right skip-list primitive; both comparators are the lexicographic (score, member) order with arguments in order; the three search loops agree (full comparator, advance on Less only); no in-place overwrite of a linked node's ordering key under a tie-admitting bare score comparison; every path after the index update links a node. An engine method that writes scores returns success only after handing the score to SkipList::insert (or after an exact == showed nothing changes). Each ZADD front end tests every parsed score for NaN itself, before the first engine call.",
             "not_decided": "correctness of the tower pointer surgery, comparator totality on -0/inf, agreement of rank and range queries (need execution or a proof of the data structure)."},
-    "C05": {"decided": "Error discipline and reply counting of the connection loop on all CFG paths: an Err from executing a frame is converted to an error reply unless Connection/Io; exactly one reply push per loop iteration and no mid-batch exit; protocol errors are queued/answered and the connection closed; line-framed reply payloads pass a CR/LF filter; nothing reachable from EXEC yields NoResponse; the loop draining the parser is left only when parse_frame reports an incomplete buffer or an error (no complete command is stranded until the next read). The parser loop drains complete frames; no protocol error is decided from bytes that have not arrived (length guard must cover what a non-panicking content test looks at); Io-class errors cannot leave a command handler. Once Connection::read has fed the parser it returns `data available` (no error / `nothing read` exit after a feed, path-sensitive).",
+    "C05": {"decided": "Error discipline and reply counting of the connection loop on all CFG paths: an Err from executing a frame is converted to an error reply unless Connection/Io; exactly one reply push per loop iteration and no mid-batch exit; protocol errors are queued/answered and the connection closed; line-framed reply payloads pass a CR/LF filter; nothing reachable from EXEC yields NoResponse; the loop draining the parser is left only when parse_frame reports an incomplete buffer or an error (no complete command is stranded until the next read). The parser loop drains complete frames; no protocol error is decided from bytes that have not arrived (length guard must cover what a non-panicking content test looks at); Io-class errors cannot leave a command handler. Once Connection::read has fed the parser it returns `data available` (no error / `nothing read` exit after a feed, path-sensitive). Every write to the non-blocking client socket is a partial write of write_buffer[write_offset..] whose returned count is added to write_offset (no write_all / write!).",
             "not_decided": "TCP segmentation independence of the whole I/O state machine, reply order under partial writes."},
-    "C06": {"decided": "Interprocedural, type-restricted taint from client/wire numbers (str::parse, RespFrame::Integer) to panicking arithmetic (MIR overflow/neg/div/bounds asserts), indexing/slicing APIs, allocation sizes, float->Duration and clock arithmetic, with bounds derived by abstract interpretation over dominating comparisons, min/max/clamp and casts; bounded parser recursion; no client-timed sleep; script execution bound; lock re-entrancy; stream IDs (hand-written parser) and numbers read back from the stream's atomics are sources too; interprocedural error-origin analysis: only listener errors can propagate through `?` to Server::run (whose Err ends the process). Stored deadlines are bounded by a constant (the dump writers' unchecked clock arithmetic relies on it); no error reaches Server::run from storage/handlers; all client-driven recursion is depth-bounded. No closure run under a lock-holding higher-order function re-acquires that lock (also through generic-bound trait calls); no client-controlled iteration count without a bound or a data-dependent break.",
+    "C06": {"decided": "Interprocedural, type-restricted taint from client/wire numbers (str::parse, RespFrame::Integer) to panicking arithmetic (MIR overflow/neg/div/bounds asserts), indexing/slicing APIs, allocation sizes, float->Duration and clock arithmetic, with bounds derived by abstract interpretation over dominating comparisons, min/max/clamp and casts; bounded parser recursion; no client-timed sleep; script execution bound; lock re-entrancy; stream IDs (hand-written parser) and numbers read back from the stream's atomics are sources too; interprocedural error-origin analysis: only listener errors can propagate through `?` to Server::run (whose Err ends the process). Stored deadlines are bounded by a constant (the dump writers' unchecked clock arithmetic relies on it); no error reaches Server::run from storage/handlers; all client-driven recursion is depth-bounded. No closure run under a lock-holding higher-order function re-acquires that lock (also through generic-bound trait calls); no client-controlled iteration count without a bound or a data-dependent break. Every loop of the Lua -> RESP reply conversion that reads the Lua state has an exit decided by an element budget shared by the whole conversion.",
             "not_decided": "absence of all panics (only input-tainted ones), memory exhaustion by legitimately large data, liveness under slow peers; bounds are hi/lo abstractions, not exact ranges."},
     "C07": {"decided": "Queue gate dominance in process_frame, FIFO-only use of the queue, one result per queued command with no early exit, transaction-state reset on every exit of EXEC/DISCARD (and before execution), no event-loop re-entry from EXEC, identity of the connection handed to re-dispatched commands. No command is refused inside MULTI on a path that skips the queue step; re-dispatch happens with the executing connection; the EXEC-without-MULTI arm is the only exit that needs no reset. A refused transaction-control command writes nothing to the transaction state before its error reply.",
             "not_decided": "isolation against non-command threads (sweeper, replica apply); equality of each queued command's reply with its stand-alone reply."},
@@ -319,19 +326,19 @@ CLAIMS = {
             "not_decided": "no-false-abort for hash collisions; timing of expiry vs EXEC."},
     "C09": {"decided": "Writer/reader table agreement in rdb.rs: variant->opcode->constructed variant is the identity (both writers); length-class bounds, tags, masks, shifts and byte order consistent with the decoder; per-variant sequence of primitive writes equals the sequence of reads (loop nesting included); count = len() of the iterated collection; no in-band type decision; records with expiry never loaded persistent; database selector flow. Dataset text parsed as a number by the snapshot writer replaces the text only under a round trip; every reader function dispatching on the type byte consumes what the writer emits; per-record loader state is reset on every successful exit of its consumer. The record loader returns successfully only after handing the record's TTL to a storage call, or where the TTL is known to be None.",
             "not_decided": "equality of the loaded dataset for every dataset (needs execution), TTL clock granularity, consumer groups (not persisted)."},
-    "C10": {"decided": "save() writes only a temp path and renames on the success continuation after a successful flush; single-writer guard held across the write; BGSAVE flag cleared on every exit incl. unwind; value+TTL of a key from one engine call and shared collections materialised once; no read result dropped in the loader, unknown opcodes refused; file-tainted lengths never reach unbounded allocation/arithmetic. Dump deadlines use a clock read in the invocation that read the key's TTL.",
+    "C10": {"decided": "save() writes only a temp path and renames on the success continuation after a successful flush; single-writer guard held across the write; BGSAVE flag cleared on every exit incl. unwind; value+TTL of a key from one engine call and shared collections materialised once; no read result dropped in the loader, unknown opcodes refused; file-tainted lengths never reach unbounded allocation/arithmetic. Dump deadlines use a clock read in the invocation that read the key's TTL. The temp dump is opened create+truncate (never create_new / append), so the leftover of a failed save does not block or corrupt the next one.",
             "not_decided": "crash-point atomicity below the file-system API (fsync), exact interleavings with commands beyond the single-acquisition clause."},
-    "C11": {"decided": "Write-set agreement: every dispatcher arm that can reach a dataset mutator is in is_write_command; every mutator call site reachable from the event loop lies under the append hook (gated, before dispatch); record carries the database; no random-outcome command appended verbatim; exactly one Array frame per command, flushed under every fsync policy. The hook rule is path-sensitive (flags, helpers): every mutating arm is entered only after the append, or under `not a write command` / `AOF off`; every Ok path of append_command passes a flush. A function that appends to the AOF itself does not also run the command through the dispatcher hook (represented once).",
+    "C11": {"decided": "Write-set agreement: every dispatcher arm that can reach a dataset mutator is in is_write_command; every mutator call site reachable from the event loop lies under the append hook (gated, before dispatch); record carries the database; no random-outcome command appended verbatim; exactly one Array frame per command, flushed under every fsync policy. The hook rule is path-sensitive (flags, helpers): every mutating arm is entered only after the append, or under `not a write command` / `AOF off`; every Ok path of append_command passes a flush. A function that appends to the AOF itself does not also run the command through the dispatcher hook (represented once). A function that puts another file at the log path (a rewrite whose source it creates) re-opens the writer before it returns successfully.",
             "not_decided": "that replay reproduces the dataset (the built-in replay is a stub); ordering between append and effect under failure."},
     "C12": {"decided": "Sandbox list, blocked-command list (and nothing the executor implements escapes it), sibling-dispatcher parity (presence, effect class, storage primitive per catalogue command), EVALSHA = EVAL entry with caller's db and unmodified source, byte-safety of the Lua boundary, no event-loop re-entry from EVAL, failure atomicity of script-side commands; the two conversion functions agree cell by cell with the standard RESP<->Lua conversion table and array elements keep their index. The table->array conversion ends at the first nil; array replies are stored at their own index; every error of the shared call/pcall body is raised by the helper that branches on is_pcall. The two implementations of every catalogue command reach the same set of leaf engine methods.",
             "not_decided": "reply equality after RESP->Lua conversion for every command and argument (two independent implementations; needs a differential run)."},
-    "C13": {"decided": "Wake path pops only under a still-Blocked test, delivers on the Some edge and pushes back on failed delivery; an empty pop re-registers the client; a woken waiter loses all registrations under the registry lock; every list-growing arm notifies once per element; registry indexes and connection state updated together; both removal sites clean up; blocked connections polled. The decision to notify may depend on `something was pushed` (count > 0) only, never on the list's length; waiter queues keep FIFO order (no swap removal); unregistering removes every entry of the client. The timeout pass scans every registry on every call, or skips only under a cached deadline all of whose writes derive from the blocked clients' deadlines.",
+    "C13": {"decided": "Wake path pops only under a still-Blocked test, delivers on the Some edge and pushes back on failed delivery; an empty pop re-registers the client; a woken waiter loses all registrations under the registry lock; every list-growing arm notifies once per element; registry indexes and connection state updated together; both removal sites clean up; blocked connections polled. The decision to notify may depend on `something was pushed` (count > 0) only, never on the list's length; waiter queues keep FIFO order (no swap removal); unregistering removes every entry of the client. The timeout pass scans every registry on every call, or skips only under a cached deadline all of whose writes derive from the blocked clients' deadlines. Every Duration built from the parsed BLPOP/BRPOP timeout is reachable only through a non-zero test of that number (path-sensitive).",
             "not_decided": "FIFO service order, promptness, timeout accuracy, multiset conservation over whole histories."},
-    "C14": {"decided": "Per-connection sets and global maps updated together with the same connection id, emptied entries removed; acknowledged count = channels.len()+patterns.len() after the update; PUBLISH replies with the length of the list it delivers to; no per-connection de-duplication; pattern receivers only under a match test; closing connections always removed with full clean-up; a connection's subscription record is dropped only when both its channel and pattern sets are empty.",
+    "C14": {"decided": "Per-connection sets and global maps updated together with the same connection id, emptied entries removed; acknowledged count = channels.len()+patterns.len() after the update; PUBLISH replies with the length of the list it delivers to; no per-connection de-duplication; pattern receivers only under a match test; closing connections always removed with full clean-up; a connection's subscription record is dropped only when both its channel and pattern sets are empty. Channel, pattern and payload bytes reach the subscription manager and the message formatters with no lossy / UTF-8-only decoding, case mapping, cutting or sorting on their interprocedural value flow.",
             "not_decided": "per-publisher order across connections, glob semantics of patterns (the matcher's backtracking algorithm is value-level: seeded change C14-glob-backtrack-pruning is recorded as not detected)."},
     "C15": {"decided": "Explicit-ID append dominated by the id > last_id test (refusal edge effect-free); only additions write the last-ID state (field and atomics together), trim/delete never; every entry-vector change has the matching length-counter update; dispatcher arms and failure atomicity; stream-mutating engine methods never remove the key (last-ID state survives emptying); the ID parser accumulates with checked arithmetic; XADD * is refused at the top of the ID space; ID arithmetic on client-chosen IDs is checked. Sequences looked up by binary search are kept sorted by every function that grows them; a ring buffer's readers see both slices; the XLEN counter moves by the number of entries really removed.",
             "not_decided": "range exactness (binary-search index arithmetic), auto-ID vs wall clock."},
-    "C16": {"decided": "Both pending indexes updated together; consumer pending_count and total_pending move with the PEL; XACK counts only on the Some edge of removal; deliveries advance the cursor on both sides of NOACK; creation start position initialises the cursor; refused group administration has no effect. The per-consumer index and every other binary-searched sequence stay sorted under every insertion; idle times count from last_delivery; cached XPENDING bounds are derived from the index. The delivery cursor is read only where entries are delivered or the cursor is administered (XACK/XCLAIM/XPENDING are decided by the pending list alone).",
+    "C16": {"decided": "Both pending indexes updated together; consumer pending_count and total_pending move with the PEL; XACK counts only on the Some edge of removal; deliveries advance the cursor on both sides of NOACK; creation start position initialises the cursor; refused group administration has no effect. The per-consumer index and every other binary-searched sequence stay sorted under every insertion; idle times count from last_delivery; cached XPENDING bounds are derived from the index. The delivery cursor is read only where entries are delivered or the cursor is administered (XACK/XCLAIM/XPENDING are decided by the pending list alone). No Err result after a state mutation inside the group objects and no error reply after a state-mutating call in the handlers (refused administration and refused XREADGROUP leave groups, cursors and pending lists as they were).",
             "not_decided": "exactly-once delivery across consumers over histories, XPENDING bounds values, XCLAIM idle-time semantics."},
     "C17": {"decided": "Every privileged call on the per-frame path is dominated by the pass edge of the authentication gate and unreachable from its refuse edge; nothing privileged runs per frame outside process_frame; Authenticated is stored only in three justified contexts (full password equality, per connection); failed AUTH has no side effect. Gate and Authenticated-store rules are path-sensitive (boolean flags, helpers, verdicts computed inside with_connection closures); the configured password reaches the compared field unaltered (no case mapping / lossy step on the interprocedural flow). When the configuration file cannot be loaded no server start is reachable on the error edge.",
             "not_decided": "timing side channels of the password comparison."},
